@@ -54,7 +54,7 @@ def main(chk):
     groups = [[name(c) for c in g] for g in (["lscalar", "llist", "lcol", "ltab"], ["lmulti", "lwhere", "lcrit", "lscalar"])]
     n_extra = 2 if chk.quick else 8
     while len(groups) < 2 + n_extra:
-        g = sorted(rng.sample(LAM, 4))
+        g = sorted(rng.sample(LAM, 3 if chk.quick else 4))
         if [name(c) for c in g] not in groups:
             groups.append([name(c) for c in g])
     plans = [(g, 3, ["none"], ["cached"], depth) for g in groups]
